@@ -4,6 +4,7 @@ import (
 	"fmt"
 	"math"
 	"sort"
+	"strconv"
 	"strings"
 	"time"
 
@@ -229,10 +230,13 @@ func runC06(c *core.Ctx) {
 				}
 			}
 		}
-		sample(c, func() interface{} { return map[string]interface{}{"query": text, "fault_plans": "every single call of the reference call log x 5 kinds"} })
+		sample(c, func() interface{} {
+			return map[string]interface{}{"query": text, "fault_plans": "every single call of the reference call log x 5 kinds"}
+		})
 		return true
 	})
 	c06Typed(c)
+	c06BadArguments(c, s, graphs[0])
 	c.R.Bound = fmt.Sprintf("documents within %d mutations of the bases; single faults (thorough: + all pairs for logs <= 10); leaf lists of four behind typed Go slices and []interface{} x all 16 sets of failing positions x 3 ways of resolving", k)
 	if !completed {
 		c.Cap("deadline reached before the neighbourhood was completed")
@@ -449,6 +453,88 @@ func c06Typed(c *core.Ctx) {
 					c.Violation("err-diff", attrs, detail)
 				} else {
 					c.Outcome("typed-slice-agree")
+				}
+			}
+		}
+	}
+}
+
+// ---- a field that fails because its (literal) argument cannot be coerced, reached once per element of a list and again when the
+// same parsed request is resolved a second time: one entry per element, each path addressing its own element, the same both times
+func c06BadArguments(c *core.Ctx, s *world.Schema, g *world.Graph) {
+	docs := []string{
+		`{ kids { id pick(i: "notanumber") } }`, `{ as { kids { echo(b: true) } id } }`, `{ kids { p: pick(e: PURPLE) q: pick(i: 1.5) } }`,
+		`{ peers { id tri(a: [1]) } kids { pick(in: {min: "x"}) } }`, `{ ll { pick(ids: [null]) } }`,
+	}
+	for di, text := range docs {
+		for _, nc := range []namedCfg{{"RS", world.Config{Strat: world.RS, Schema: s}}, {"AS", world.Config{Strat: world.AS, Schema: s}}, {"FS", world.Config{Strat: world.FS, Bind: world.BindRegister, Schema: s}}} {
+			if !c.OwnsIdx(1<<47 + int64(di*3)) {
+				continue
+			}
+			gg := g
+			if nc.Cfg.Strat == world.FS {
+				gg = g.FSView(s)
+			}
+			c.Eval()
+			c.R.Distinct++
+			c.Nontrivial()
+			root, _, err := world.BuildRoot(nc.Cfg, gg)
+			if err != nil {
+				panic(core.EngineError{Msg: err.Error()})
+			}
+			exe, perr := root.ParseExecutableString(text)
+			if perr != nil {
+				panic(core.EngineError{Msg: "C06 bad-argument document refused at parse: " + perr.Error()})
+			}
+			var rounds [2][]string
+			var datas [2]string
+			var pi *core.PanicInfo
+			for round := 0; round < 2 && pi == nil; round++ {
+				pi = core.Safe(func() {
+					res, rerr := root.ResolveExecutable(exe, "", nil)
+					datas[round] = string(toJSON(world.Canon(res["data"])))
+					if rerr != nil {
+						for _, e := range ggql.FormErrorsResult(rerr) {
+							if em, ok := e.(map[string]interface{}); ok {
+								rounds[round] = append(rounds[round], world.PathString(asPath(em["path"])))
+							}
+						}
+					}
+				})
+				sort.Strings(rounds[round])
+			}
+			detail := map[string]interface{}{"config": nc.Name, "query": text, "error_paths_first": rounds[0], "error_paths_second": rounds[1], "data_first": datas[0], "data_second": datas[1]}
+			attrs := map[string]string{"part": "bad-arguments", "strategy": nc.Cfg.Strat.String()}
+			switch {
+			case pi != nil:
+				c.Violation("panic", map[string]string{"site": pi.Site, "class": pi.Class}, detail)
+			case len(rounds[0]) == 0:
+				detail["diff"] = "no error for an argument that cannot be coerced"
+				c.Violation("err-diff", attrs, detail)
+			case !world.SameStrings(rounds[0], rounds[1]) || datas[0] != datas[1]:
+				detail["diff"] = "the second resolution of the same parsed request reports other paths / data than the first"
+				c.Outcome("bad-argument-rounds-differ")
+				c.Violation("err-diff", attrs, detail)
+			default:
+				bad := ""
+				seen := map[string]bool{}
+				for _, p := range rounds[0] {
+					segs := strings.Split(p, "/")
+					for i := 0; i+1 < len(segs); i++ {
+						if _, num := strconv.Atoi(segs[i]); segs[i] == segs[i+1] && segs[i] != "" && num != nil { // (two equal indexes in a row are a list of lists)
+							bad = "a path repeats a segment: " + p
+						}
+					}
+					// (the same path twice is not demanded against: an input object that does not fit is reported once for the field
+					// and once for the object - argument coercion is not one of the failures this property counts entries for)
+					seen[p] = true
+				}
+				if bad != "" {
+					detail["diff"] = bad
+					c.Outcome("bad-argument-paths")
+					c.Violation("err-diff", attrs, detail)
+				} else {
+					c.Outcome("bad-argument-agree")
 				}
 			}
 		}
